@@ -150,11 +150,30 @@ func computeTracked(fn *ssa.Function) map[*ssa.Alloc]bool {
 	for _, b := range fn.Blocks {
 		for _, in := range b.Instrs {
 			if a, ok := in.(*ssa.Alloc); ok {
-				out[a] = addrOnlyUses(a, a, 0)
+				out[a] = addrOnlyUses(a, a, 0) && !hasEmbeddedField(a)
 			}
 		}
 	}
 	return out
+}
+
+var embeddedTable map[string]bool
+
+func hasEmbeddedField(a *ssa.Alloc) bool {
+	pt, ok := a.Type().Underlying().(*types.Pointer)
+	if !ok || len(embeddedTable) == 0 {
+		return false
+	}
+	sh := shapeOf(pt.Elem())
+	if sh.kind != KStruct {
+		return false
+	}
+	for i := range sh.fields {
+		if embeddedTable[embeddedKey(sh, i)] {
+			return true
+		}
+	}
+	return false
 }
 
 // addrOnlyUses reports whether every use of the address value v (derived from
@@ -464,6 +483,11 @@ func (fr *Frame) enterLoop(l *loop, in *State, heads map[*ssa.BasicBlock]*loopHe
 			call := ap.E.(*ECall)
 			env := fr.envFor(st, fr.entry, nil)
 			fx.assume(st.guard, fx.eng.lemmaInstance(fx, call.Fn, call.Args, env))
+		}
+		for _, inv := range ls.Assumed {
+			inv := inv
+			fx.assume(st.guard, fx.hyp(func() T { return fr.evalClause(inv, st, nil, nil) }))
+			fx.noteAssumption("UNCHECKED loop-head assumption in " + name + ": " + inv.Label + " " + inv.Src)
 		}
 		if ls.Decreases != nil {
 			cv := fr.evalExprIn(ls.Decreases.E, st, nil, nil)
@@ -939,6 +963,37 @@ func (fr *Frame) nilCheck(st *State, p Val, pos token.Pos, what string) {
 	fr.fx.oblige("nil", fr.path+"/nil/"+what+"#", st, not(eq(p.ts[0], "0")), pos, "")
 }
 
+// guardedCheck: a field declared "guarded T.f by mu" may only be read or
+// written while the mutex field mu of the same object is held.  Objects
+// allocated by the current function (constructors) are exempt.
+func (fr *Frame) guardedCheck(st *State, p Val, pos token.Pos, what string) {
+	fx := fr.fx
+	if p.ptr == nil || p.ptr.cell != nil || len(p.ptr.path) == 0 || p.ptr.path[0].field < 0 || len(fx.eng.contracts.Guarded) == 0 {
+		return
+	}
+	root := p.ptr.root
+	if root.kind != KStruct {
+		return
+	}
+	fkey := embeddedKey(root, p.ptr.path[0].field)
+	mu, ok := fx.eng.contracts.Guarded[fkey]
+	if !ok || strings.HasPrefix(p.ts[0], "|ref_") {
+		return
+	}
+	for i, n := range root.fnames {
+		if n != mu {
+			continue
+		}
+		obj := fx.loadObj(st, root, p.ts[0])
+		mv := obj.field(i)
+		env := &Env{fx: fx, vars: map[string]CV{"m": cvOf(mv)}, st: st, bound: map[string]bool{}}
+		e, _ := parseExpr("locked(m)")
+		fx.oblige("guarded", fmt.Sprintf("%s/guarded/%s_%s#", fr.path, root.fnames[p.ptr.path[0].field], what), st, env.eval(e).asBool(), pos, "guarded "+fkey+" by "+mu)
+		return
+	}
+	unsupp("guarded: no mutex field %s in %s", mu, root.key)
+}
+
 func navGet(v Val, path []PathElem) Val {
 	for _, pe := range path {
 		if pe.field >= 0 {
@@ -978,6 +1033,7 @@ func (fr *Frame) loadPtr(st *State, p Val, pos token.Pos) Val {
 		return navGet(cv, p.ptr.path)
 	}
 	fr.nilCheck(st, p, pos, "deref")
+	fr.guardedCheck(st, p, pos, "read")
 	var out Val
 	if p.ptr != nil {
 		root := fx.loadObj(st, p.ptr.root, p.ts[0])
@@ -1032,6 +1088,7 @@ func (fr *Frame) storePtr(st *State, p Val, v Val, pos token.Pos) {
 		return
 	}
 	fr.nilCheck(st, p, pos, "store")
+	fr.guardedCheck(st, p, pos, "write")
 	if p.ptr != nil {
 		root := fx.loadObj(st, p.ptr.root, p.ts[0])
 		nroot := navSet(root, p.ptr.path, v)
@@ -1048,10 +1105,30 @@ func (fr *Frame) storePtr(st *State, p Val, v Val, pos token.Pos) {
 	fx.storeObjComps(st, p.sh.elem, p.ts[0], 0, v.ts)
 }
 
+const embBase = "1099511627776" // 2^40: addresses of embedded, separately addressed fields
+
+// embeddedKey names a struct field for the Embedded / Guarded tables.
+func embeddedKey(sh *Shape, field int) string {
+	n, ok := sh.typ.(*types.Named)
+	if !ok || n.Obj().Pkg() == nil {
+		return ""
+	}
+	return n.Obj().Pkg().Path() + "." + n.Obj().Name() + "." + sh.fnames[field]
+}
+
 func (fr *Frame) fieldAddr(st *State, p Val, field int, pos token.Pos) Val {
 	esh := p.sh.elem
 	if esh == nil || esh.kind != KStruct {
 		unsupp("field address into %s", p.sh.key)
+	}
+	if fr.fx.eng.contracts.Embedded[embeddedKey(esh, field)] {
+		if p.ptr != nil {
+			unsupp("embedded field of a tracked or interior object")
+		}
+		fr.nilCheck(st, p, pos, "fieldaddr")
+		fr.fx.noteAssumption("the address of " + embeddedKey(esh, field) + " is modelled as an object of its own, derived injectively from the enclosing object's reference (inverse: structPtr)")
+		code := fr.fx.define("emb", sInt, app("+", embBase, app("*", p.ts[0], "64"), num(int64(field))))
+		return Val{sh: &Shape{kind: KPtr, elem: esh.fields[field], key: "*" + esh.fields[field].key}, ts: []T{code}}
 	}
 	out := Val{sh: &Shape{kind: KPtr, elem: esh.fields[field], key: "*" + esh.fields[field].key}, ts: p.ts}
 	if p.ptr != nil {
@@ -1230,6 +1307,14 @@ func (fr *Frame) convert(st *State, v Val, from, to types.Type, pos token.Pos) V
 			imp(not(and(le("0", r), lt(r, "128"))), le("128", sel(arr, "0"))),
 			le("0", sel(arr, "0")), le(sel(arr, "0"), "255")))
 		return mkStr(tsh, arr, "0", n)
+	case fsh.kind == KPtr && tsh.kind == KInt:
+		if v.ptr != nil {
+			unsupp("conversion of an interior or cell pointer to unsafe.Pointer")
+		}
+		return mkInt(tsh, v.ts[0])
+	case fsh.kind == KInt && tsh.kind == KPtr:
+		fx.noteAssumption("unsafe.Pointer to pointer conversion keeps the reference (used only with structPtr)")
+		return Val{sh: tsh, ts: []T{v.t()}}
 	case fsh.kind == tsh.kind:
 		nv := v
 		nv.sh = tsh
